@@ -103,12 +103,14 @@ func (fr *Frame) preludeCall(st *State, name string, fn *ssa.Function, args []Va
 	case "__requires", "__ensures", "__invariant", "__canary":
 		if ex.collect != nil {
 			*ex.collect = append(*ex.collect, clauseInst{Kind: strings.TrimPrefix(name, "__"), Name: constString(cc.Args[0]),
-				Tags: splitTags(constString(cc.Args[1])), Cond: args[2].T, PC: st.pc})
+				// clause calls are top-level statements of the generated spec function: every
+				// path reaches them, so their path condition is logically true
+				Tags: splitTags(constString(cc.Args[1])), Cond: args[2].T, PC: TTrue})
 		}
 		return Val{}, true
 	case "__case":
 		if ex.collect != nil {
-			*ex.collect = append(*ex.collect, clauseInst{Kind: "case", Name: constString(cc.Args[0]), Cond: args[1].T, PC: st.pc})
+			*ex.collect = append(*ex.collect, clauseInst{Kind: "case", Name: constString(cc.Args[0]), Cond: args[1].T, PC: TTrue})
 		}
 		return Val{}, true
 	case "__assert":
@@ -217,6 +219,7 @@ func (fr *Frame) ghostApply(st *State, clo *Closure, ps []Val) *Term {
 	defer func() { ex.ghost--; ex.ctx.noAbbrev-- }()
 	sub := ex.newFrame(clo.Fn, ps, clo.Bind, fr)
 	work := st.clone()
+	work.pc = TTrue // the body is a pure function of its bound variables
 	exit, vals := sub.run(work)
 	if exit == nil || len(vals) != 1 || vals[0].T == nil {
 		ex.unsupported("quantifier body does not produce a value")
